@@ -35,29 +35,36 @@ class scale_viewbox:
     native_requires = lambda view_box: abs(view_box.h) > 1e-3
 
 
-def _placement(result, view_box, ascender, descender, width, user_transform, top_y, bottom_y):
-    """the statement: viewBox height spans [bottom_y, top_y], horizontally centred in the
-    advance, uniform scale, then the user transform.  Three non-collinear points pin the
-    affine down completely."""
+def _ydown(p, otsvg):
+    """a font-space point (y up) in OT-SVG coordinates (y down, same origin)"""
+    return (p[0], -p[1]) if otsvg else p
+
+
+def _placement(result, view_box, ascender, descender, width, user_transform, top_y, bottom_y, otsvg=False):
+    """the statement (C01): viewBox height spans [bottom_y, top_y] = [descender, ascender],
+    horizontally centred in the advance, uniform scale, then the user transform -- all in FONT
+    coordinates (the option's documentation: "User transform, in font coordinates").  C02: the
+    OT-SVG document shows that same placement in OT-SVG coordinates, i.e. with y negated AFTER
+    the user transform.  Three non-collinear points pin the affine down completely."""
     U = spec.aff(user_transform)
     R = spec.aff(result)
     cx = view_box.x + view_box.w / 2
     return (
-        spec.pt(R, (cx, view_box.y)) == spec.pt(U, (width / 2, top_y))
-        and spec.pt(R, (cx, view_box.y + view_box.h)) == spec.pt(U, (width / 2, bottom_y))
-        and spec.pt(R, (cx + view_box.h, view_box.y)) == spec.pt(U, (width / 2 + (ascender - descender), top_y))
+        spec.pt(R, (cx, view_box.y)) == _ydown(spec.pt(U, (width / 2, top_y)), otsvg)
+        and spec.pt(R, (cx, view_box.y + view_box.h)) == _ydown(spec.pt(U, (width / 2, bottom_y)), otsvg)
+        and spec.pt(R, (cx + view_box.h, view_box.y)) == _ydown(spec.pt(U, (width / 2 + (ascender - descender), top_y)), otsvg)
     )
 
 
-def _placement_close(result, view_box, ascender, descender, width, user_transform, top_y, bottom_y):
+def _placement_close(result, view_box, ascender, descender, width, user_transform, top_y, bottom_y, otsvg=False):
     U = spec.aff(user_transform)
     R = spec.aff(result)
     cx = view_box.x + view_box.w / 2
     m = 1e-6 * (1 + sum(abs(v) for v in U)) * (1 + abs(width) + abs(ascender) + abs(descender)) * (1 + abs(result.a) * (abs(view_box.x) + abs(view_box.y) + abs(view_box.w) + abs(view_box.h)))
     return (
-        close(spec.pt(R, (cx, view_box.y)), spec.pt(U, (width / 2, top_y)), m)
-        and close(spec.pt(R, (cx, view_box.y + view_box.h)), spec.pt(U, (width / 2, bottom_y)), m)
-        and close(spec.pt(R, (cx + view_box.h, view_box.y)), spec.pt(U, (width / 2 + (ascender - descender), top_y)), m)
+        close(spec.pt(R, (cx, view_box.y)), _ydown(spec.pt(U, (width / 2, top_y)), otsvg), m)
+        and close(spec.pt(R, (cx, view_box.y + view_box.h)), _ydown(spec.pt(U, (width / 2, bottom_y)), otsvg), m)
+        and close(spec.pt(R, (cx + view_box.h, view_box.y)), _ydown(spec.pt(U, (width / 2 + (ascender - descender), top_y)), otsvg), m)
     )
 
 
@@ -90,16 +97,17 @@ class map_otsvg_space:
     requires = [lambda view_box, descender: descender <= 0 and view_box.h != 0]
     returns = AFF
     ensures = {
-        # OT-SVG: y down, origin on the baseline: top of the em box at y = -ascender,
-        # bottom at y = -descender
+        # OT-SVG: y down, origin on the baseline: the C01 placement (user transform included,
+        # in font coordinates) seen with y negated -- top of the em box at y = -ascender,
+        # bottom at y = -descender when there is no user transform
         "placement": lambda view_box, ascender, descender, width, user_transform, result: _placement(
-            result, view_box, ascender, descender, width, user_transform, -ascender, -descender
+            result, view_box, ascender, descender, width, user_transform, ascender, descender, True
         ),
     }
     native_skip = ("placement",)
     native_ensures = {
         "placement~": lambda view_box, ascender, descender, width, user_transform, result: _placement_close(
-            result, view_box, ascender, descender, width, user_transform, -ascender, -descender
+            result, view_box, ascender, descender, width, user_transform, ascender, descender, True
         )
     }
     native_requires = lambda view_box: abs(view_box.h) > 1e-3
